@@ -13,8 +13,12 @@ Independent of `Model.Layout.get`: plain `Nat` arithmetic, no accumulator, no op
   array rules as in C++ (members at the next multiple of their alignment, struct size rounded up to the
   struct's alignment, array stride = element size which is already a multiple of its alignment).
 
+* An empty struct occupies no bytes under HLSL packing and one byte in Metal (C++: every complete object
+  type has size ≥ 1); its alignment is 1 in both.
+
 Only types of the property's grid have a reference layout (`wf`): half/int/uint/float/double, vectors of
-1–4 of them, enums (32-bit), arrays of at least one element, non-empty structs.
+1–4 of them, enums (32-bit), arrays of at least one element, structs (empty ones included since /repo d25724e,
+when `get_type_layout` learnt the Metal rule for them).
 -/
 namespace RsslVerif.Spec.Layout
 open RsslVerif.Gen.LayoutTables RsslVerif.Model.Layout
@@ -62,13 +66,21 @@ def alignMax (m : Mode) : Tys → Nat
   | .cons t ts => max (align m t) (alignMax m ts)
 end
 
+/-- size of a struct without members -/
+def emptySize : Mode → Nat
+  | .hlsl => 0
+  | .metal => 1
+
 mutual
 /-- total size in bytes, including tail padding -/
 def size (m : Mode) : Ty → Nat
   | .scalar s => bytes s
   | .vec s n => vecSize m s n
   | .arr t n => n * roundUp (size m t) (align m t)
-  | .struct ms => roundUp (endOf m ms 0) (alignMax m ms)
+  | .struct ms =>
+    match ms with
+    | .nil => emptySize m
+    | .cons _ _ => roundUp (endOf m ms 0) (alignMax m ms)
   | .enum u => bytes u
   | .other _ => 0
 /-- end of the last member when the members are laid out from cursor `c` -/
@@ -91,7 +103,7 @@ def wf : Ty → Bool
   | .scalar s => sized s
   | .vec s n => sized s && (1 ≤ n && n ≤ 4)
   | .arr t n => decide (1 ≤ n) && wf t
-  | .struct ms => (match ms with | .nil => false | .cons _ _ => true) && wfAll ms
+  | .struct ms => wfAll ms
   | .enum u => u == .Int32 || u == .UInt32
   | .other _ => false
 def wfAll : Tys → Bool
@@ -163,10 +175,22 @@ def leafAll : Tys → Nat
 end
 
 mutual
+/-- every array length is a `u32` (`u32::try_from(count)` succeeds) -/
+def lengthsFit : Ty → Bool
+  | .arr t n => decide (n ≤ u32Max) && lengthsFit t
+  | .struct ms => lengthsFitAll ms
+  | _ => true
+def lengthsFitAll : Tys → Bool
+  | .nil => true
+  | .cons t ts => lengthsFit t && lengthsFitAll ts
+end
+
+mutual
+/-- no vector of two or more components and no empty struct: nothing the two rule sets treat differently -/
 def vectorFree : Ty → Bool
   | .vec _ n => n == 1
   | .arr t _ => vectorFree t
-  | .struct ms => vectorFreeAll ms
+  | .struct ms => (match ms with | .nil => false | .cons _ _ => true) && vectorFreeAll ms
   | _ => true
 def vectorFreeAll : Tys → Bool
   | .nil => true
